@@ -43,6 +43,13 @@ ASSUMPTIONS = [
     'the model keeps the typed (record-array) view of the object also in raw mode; raw dumps are compared through Types.raw_of',
 ]
 
+
+def translate(ctx):
+    # the regex literals / type tables of yanny.py -> Generated/YannyLits.v (same generator as C01); the obligation
+    # Cxx_source_regexes_are_the_scanners in Props.v fails when the source uses another literal
+    from harness.props import c01 as _c01
+    return _c01.translate(ctx)
+
 HEADER = '''From Coq Require Import String.
 From Coq Require Import NArith ZArith List. Import ListNotations.
 From PV Require Import Yanny.Bytes Yanny.Types Yanny.Parse Yanny.Render C03.Model C03.Append. Open Scope N_scope.'''
